@@ -419,6 +419,10 @@ def rule_R4(ctx):
     ctx.check(len(fc) == 4, "R4", "collections", "4 FingerprintCollection::new calls", "expected 4 collection constructions, found %d" % len(fc), ctx.loc(b))
     # no reordering / dedup of the temp vectors
     bad = Q.calls(b, ["sort", "dedup", "::reverse", "::retain", "::truncate", "::pop", "swap_remove", "::clear", "::remove"])
+    # the collections keep every parsed label, in order: their constructor does not drop / reorder entries either
+    fcn = [x for x in P.bodies.values() if x.name == "new" and "FingerprintCollection" in x.path and x.crate == "huginn_net_db"]
+    for nb in fcn:
+        bad += [(blk2, t2) for blk2, t2 in Q.calls(nb, ["sort", "dedup", "::reverse", "::retain", "::truncate", "::pop", "swap_remove", "::clear", "::remove", "::drain", "::filter"])]
     ctx.check(not bad, "R4", "file-order", "no reordering/removing operation in the loader",
               "loader applies %s to parsed entries" % [T.short(callee_of(t)) for _, t in bad], ctx.loc(b))
 
